@@ -177,7 +177,10 @@ def run(ctx):
             rounds.append(gen_definition(r, 1000 + i))  # re-registration under the same name
         for d2 in rounds:
             cls = make_class(name, d2)
-            commands.add_commands(cls)
+            # add_commands takes a class or any iterable of classes: a list, a tuple, a generator, an iterator, a map object
+            how = [lambda c: c, lambda c: [c], lambda c: (c,), lambda c: (x for x in [c]), lambda c: iter([c]), lambda c: map(lambda x: x, [c]),
+                   lambda c: {c}, lambda c: (y for y in (c,) if True)][i % 8]
+            commands.add_commands(how(cls))
             wire = translate.enc_def(translate.class_def(cls.__name__, cls, commands))
             cases = []
             for toks, ea, ee, need in uses(name, d2, r, 12):
